@@ -62,7 +62,8 @@ func (c *c20Client) do(rq world.Req) *world.Obs {
 	loc := o.Location
 	body := o.Body
 	if len(body) > 300 {
-		body = body[:300]
+		h := sha256.Sum256([]byte(body))
+		body = body[:300] + "...#" + hex.EncodeToString(h[:8]) // the whole body counts
 	}
 	c.trace = append(c.trace, fmt.Sprintf("%s %s -> %d loc=%q body=%q sess=%v cookies=%d panic=%v", rq.Method, stripQueryValues(rq.Path), o.Status, stripQueryValues(loc), body, sortedKV(o.SessAfter), len(o.CookAfter), o.Panic != ""))
 	return o
@@ -196,7 +197,7 @@ func c20Scripts() []c20Script {
 
 func c20Config(smtp bool) world.Config {
 	return world.Config{Modules: []string{"auth", "otp", "remember", "register", "confirm", "recover", "oauth2", "logout", "totp2fa", "recovery"},
-		EmailAuthRequired: true, MailGoroutine: true, SMTPMailer: smtp, LogMailer: !smtp, RecoverLoginAfter: false, ModuleList: true}
+		EmailAuthRequired: true, MailGoroutine: true, SMTPMailer: smtp, LogMailer: !smtp, RecoverLoginAfter: false, ModuleList: true, PerClientData: true}
 }
 
 // c20Fixture builds a fresh instance and world for the given scripts.
